@@ -18,7 +18,8 @@ CLAIMED = {
                  'with the real reduce() on seeded well-typed expressions and the dense-matrix oracle is evaluated on '
                  'the implementation.'
                  ' CLOSED: in the faithful list denotation (operators as maps on flat real vectors assembled from the executable kernels the driver runs) all leaf laws are theorems, so reduce_sound_closed has no semantic hypothesis left.'
-                 ' DOMAIN CHECK: Valid.validb (FuraxModel/Valid.lean, compiled into the driver) decides the hypothesis of reduce_sound_closed — validb_iff: WTExpr inv listLeafOK o <-> validb o = true and the operands of lazy inverses satisfy inv (sound and complete) — and every expression the library builds in a run is asked to be inside it (Ctx.in_domain), so the closed theorem is about the real objects, not only about terms of the model.'),
+                 ' DOMAIN CHECK: Valid.validb (FuraxModel/Valid.lean, compiled into the driver) decides the hypothesis of reduce_sound_closed — validb_iff: WTExpr inv listLeafOK o <-> validb o = true and the operands of lazy inverses satisfy inv (sound and complete) — and every expression the library builds in a run is asked to be inside it (Ctx.in_domain), so the closed theorem is about the real objects, not only about terms of the model.'
+                 " TERMINATION (Props/C01Terminates.lean): the while loop of AlgebraicReductionRule.apply terminates for EVERY chain and every inner reduce — an abstract theorem (a firing measure that strictly decreases, a restart measure) instantiated for the registered rules with inversions(rotation before half-wave plate) + n(n-1)/2: at most 4n^2 - n + 1 iterations, so the model's fuel is never the reason for an answer (scanFuel_enough; the fuel branch of algebraicReduction is dead code); the recursion fuel of reduce() through block products is characterised (a fuel error can only come from a recursive call) but its sufficiency for every expression is open (depth can grow under reduce; kernel-checked witnesses)."),
         'note': ('Trusted: Lean kernel + propext/Classical.choice/Quot.sound; harness encoder/translator; JAX '
                  'primitives (A1, A2), exact lazy inverse (A4, part of WTExpr: A.invertible).  The leaf laws of '
                  'RuleLaws/ContainerLaws are hypotheses of the abstract reduce_sound and THEOREMS in the list denotation '
